@@ -313,6 +313,15 @@ class BuiltinMixin:
             return SV(cur, "dict", py=("pairs", pairs))
         raise Untranslatable("dict(...) with positional argument")
 
+    def bi_defaultdict(self, node, st, fr):
+        """collections.defaultdict(int | set | list): a dict whose missing keys read as 0 / empty set / empty list
+        (that a read also inserts the key is not modelled: only relevant to later iteration, noted in the evidence)"""
+        kind = node.args[0].id if node.args and isinstance(node.args[0], ast.Name) else None
+        if kind not in ("int", "set", "list"):
+            raise Untranslatable("defaultdict factory")
+        self.used_assumptions.add("defaultdict: a read of a missing key yields the default but the implicit insertion is not modelled")
+        return SV(self.voc.dempty, "dict", py=("defaultdict", kind))
+
     def bi_iter(self, node, st, fr):
         x = self.ev(node.args[0], st, fr)
         s = self.as_seq(x, st, fr, node.args[0])
@@ -506,7 +515,7 @@ class BuiltinMixin:
     # ------------------------------------------------------------------ spec-only functions (contract language)
     SPEC_ONLY = {"card", "implies", "iff", "forall", "exists", "subset", "set_eq", "old", "is_class", "keys_of",
                  "ty_is", "same_class", "unchanged", "fresh_obj", "no_effects", "effects", "attr", "sel", "tuple2", "sval", "ival",
-                 "local", "word_only", "digit_start", "box_str", "tail", "type_arg", "type_args", "sub_accepts", "attr_set", "accepts", "matches", "is_json", "as_set_of", "distinct", "cls_name", "clsattr", "written_text", "opened_path", "ext", "box_bool", "tl_get", "raw_tq_ok", "is_blank", "attr_of", "eq_str", "mro_of", "as_dict", "as_list", "as_set", "seq_len", "dict_len", "truthy", "dict_get", "pyeval_str", "at", "is_none"}
+                 "local", "dict_values", "word_only", "digit_start", "box_str", "tail", "type_arg", "type_args", "sub_accepts", "attr_set", "accepts", "matches", "is_json", "as_set_of", "distinct", "cls_name", "clsattr", "written_text", "opened_path", "ext", "box_bool", "tl_get", "raw_tq_ok", "is_blank", "attr_of", "eq_str", "mro_of", "as_dict", "as_list", "as_set", "seq_len", "dict_len", "truthy", "dict_get", "pyeval_str", "at", "is_none"}
     SPEC_CONSTS = {}
 
     def bi_card(self, node, st, fr):
@@ -935,3 +944,9 @@ class BuiltinMixin:
 
     def bi_box_str(self, node, st, fr):
         return SV(self.voc.S2V(self.unbox(self.ev(node.args[0], st, fr), "str").t), "any")
+
+    def bi_dict_values(self, node, st, fr):
+        """dict_values(d): the list of values of d in key (insertion) order - the same term an iteration over d.values() uses"""
+        d = self.ev(node.args[0], st, fr)
+        dd = SV(self.box(d), "dict")
+        return self.as_seq(SV(None, "dvalues", py=("dvalues", dd, None)), st, fr, node)
